@@ -702,6 +702,21 @@ impl IdmServerProxyWriteTransaction<'_> {
             missing_scim.remove(&entry.get_uuid());
         });
 
+        // A sync agreement must never create entries in the reserved system uuid range. The
+        // stubs are created as an internal operation, which would otherwise bypass that check.
+        if let Some(reserved) = missing_scim
+            .keys()
+            .find(|u| **u < DYNAMIC_RANGE_MINIMUM_UUID)
+        {
+            error!(
+                ?reserved,
+                "Sync request attempted to create an entry in the reserved system uuid range"
+            );
+            return Err(OperationError::Plugin(PluginError::Base(
+                "Uuid must not be in protected range".to_string(),
+            )));
+        }
+
         // For entries that do not exist, create stub entries. We don't create the external ID here
         // yet, because we need to ensure that it's unique.
         let create_stubs: Vec<EntryInitNew> = missing_scim
